@@ -1,6 +1,7 @@
 //go:build verif
 
 //verif:dir p2p/transport/tcp
+//verif:also C05 VerifC04dTCPDial
 //verif:hook p2p/transport/tcp TcpTransport.maDial
 //verif:hook p2p/transport/tcp newTracingConn
 //verif:subst p2p/transport/tcp github.com/multiformats/go-multiaddr/net.DialArgs verifDialArgs
@@ -137,6 +138,7 @@ func VerifC04dTCPDial() {
 	}
 	addr := ma.StringCast("/ip4/1.2.3.4/tcp/1")
 	c, err := t.DialWithUpdates(ctx, addr, "peerA", upd)
+	vAssert(vGoroutines() == 0, "when the dial returns no goroutine of the attempt is left behind (a progress update nobody reads is skipped, not waited for)")
 	if err != nil {
 		vCover("dial-failed")
 		vAssert(c == nil, "no connection on error")
